@@ -229,6 +229,10 @@ def _counters(P, R, L):
     loc = {}
     for k in ("cycle_count", "rules_evaluated", "rules_fired"):
         op = res.get(k)
+        if op is not None and op[0] in "cm" and len(op[1][1]) == 1 and op[1][1][0][0] == "f" and k != "cycle_count":
+            # the counter is a field of a small totals struct (`totals.rules_fired`), possibly updated through `&mut totals`
+            loc[k] = ("field", op[1][1][0][2], op[1][1][0][3])
+            continue
         if op is None or op[0] not in "cm" or op[1][1]:
             R.violate("c", "result:%s:%s" % (fn.name, k), "result field %s is not read from a counter local" % k, fn, line)
             return
@@ -238,13 +242,19 @@ def _counters(P, R, L):
             ds = fn.defs().get(l, [])
             if len(ds) == 1 and ds[0][2] == "assign" and ds[0][3][4][0] == "use" and ds[0][3][4][1][0] in "cm" and not ds[0][3][4][1][1][1]:
                 l = ds[0][3][4][1][1][0]
+            elif k != "cycle_count" and len(ds) == 1 and ds[0][2] == "assign" and ds[0][3][4][0] == "use" and ds[0][3][4][1][0] in "cm" \
+                    and len(ds[0][3][4][1][1][1]) == 1 and ds[0][3][4][1][1][1][0][0] == "f" and not fn.local_name(l):
+                # a temporary copy of `totals.rules_fired`
+                pr = ds[0][3][4][1][1][1][0]
+                l = ("field", pr[2], pr[3])
+                break
             else:
                 break
         loc[k] = l
     if len(set(loc.values())) != 3:
-        R.violate("c", "result:%s:aliased" % fn.name, "two result counters read the same local (%s)" % {k: fn.local_name(v) for k, v in loc.items()}, fn, line)
+        R.violate("c", "result:%s:aliased" % fn.name, "two result counters read the same local (%s)" % {k: (fn.local_name(v) if isinstance(v, int) else v[1]) for k, v in loc.items()}, fn, line)
         return
-    R.hold("c", "%s: result reads three distinct counter locals %s" % (fn.short_name, {k: fn.local_name(v) for k, v in loc.items()}), fn=fn, line=line)
+    R.hold("c", "%s: result reads three distinct counter locals %s" % (fn.short_name, {k: (fn.local_name(v) if isinstance(v, int) else v[1]) for k, v in loc.items()}), fn=fn, line=line)
 
     # ---- cycle_count := cycle + 1, once per outer iteration, nowhere else
     cc = loc["cycle_count"]
@@ -285,6 +295,7 @@ def _counters(P, R, L):
         return
     # the flag tested by the early break
     arf = _break_flag(L)
+    snap = _snapshot_exit(L, loc["rules_fired"]) if arf is None else None
     ev, eev = {}, {}
     fe, te = A.bool_edges(fn, L.cond_switch)
     eev[(L.cond_switch, te, ("sw", "otherwise"))] = ["cond:T"]
@@ -293,6 +304,13 @@ def _counters(P, R, L):
         ev.setdefault(lp["header"], []).append("actions")
 
     def counter_events(local, tag, region):
+        if not isinstance(local, int):
+            _, fld, owner = local
+            for (bb, j, st) in A.stores_to_field(fn, fld, owner):
+                if bb in region:
+                    inc = A.increment_of(fn.sym_rvalue(st[4])) if j >= 0 else None
+                    ev.setdefault(bb, []).append(tag + ("+1" if inc and inc[1] == 1 and A.field_of(inc[0], fld, owner) else "?"))
+            return
         for d in fn.defs().get(local, []):
             if d[0] in region and d[2] == "assign":
                 inc = A.increment_of(fn.sym_rvalue(d[3][4]))
@@ -314,7 +332,7 @@ def _counters(P, R, L):
     for seq in sorted(seqs):
         seq = tuple(e for e in seq if not e.startswith("evaluated"))
         core = tuple(e for e in seq if e != "actions")
-        if core == ("cond:F",) or (core[:1] == ("cond:T",) and sorted(core[1:]) == ["fired+1", "flag:=true"] and "actions" in seq):
+        if core == ("cond:F",) or (core[:1] == ("cond:T",) and sorted(core[1:]) == (["fired+1", "flag:=true"] if snap is None else ["fired+1"]) and "actions" in seq):
             R.hold("c", "%s: path %s counts correctly" % (fn.short_name, list(seq)), fn=fn)
             R.sample({"clause": "c", "loop": fn.name, "path_effect": list(seq)})
         else:
@@ -336,7 +354,10 @@ def _counters(P, R, L):
         R.hold("c", "%s: rules_evaluated += 1 exactly once before each evaluation and never for a skipped rule" % fn.short_name, fn=fn)
     # no counter touched after the evaluation other than on the enumerated paths (defs outside the rule loop)
     for k in ("rules_fired", "rules_evaluated"):
-        outside = [d for d in fn.defs().get(loc[k], []) if d[0] in L.outer["body"] and d[0] not in L.inner["body"]]
+        if isinstance(loc[k], int):
+            outside = [d for d in fn.defs().get(loc[k], []) if d[0] in L.outer["body"] and d[0] not in L.inner["body"]]
+        else:
+            outside = [x for x in A.stores_to_field(fn, loc[k][1], loc[k][2]) if x[0] in L.outer["body"] and x[0] not in L.inner["body"]]
         if outside:
             R.violate("c", "counter-outside:%s:%s" % (fn.name, k), "%s: %s is modified in the cycle loop outside the rule loop" % (fn.short_name, k), fn)
 
@@ -355,6 +376,12 @@ def _counters(P, R, L):
                 continue
             if getattr(L, "counter_guard", None) is not None and (b, t, lab) == L.counter_guard["exit_edge"]:
                 kinds.append("exhausted")       # `while count < max_cycles` ran out
+                continue
+            if snap is not None and (b, t, lab) == snap["edge"]:
+                kinds.append("no-rule-fired")       # `rules_fired == value it had at the top of the pass`
+                continue
+            if snap is not None and b == snap["edge"][0]:
+                kinds.append("break-when-fired")
                 continue
             op = fn.term(b)[3]
             if arf is not None and op[0] in "cm" and not op[1][1] and A._eval_bool_local(fn, op[1][0], {arf: False}) is not None:
@@ -378,8 +405,66 @@ def _counters(P, R, L):
             R.hold("c", "%s: the fired flag is reset to false at the top of each pass" % fn.short_name, fn=fn)
         else:
             R.violate("c", "flag-reset:%s" % fn.name, "%s: the pass's fired flag is not reset to false exactly once per pass before the rule loop" % fn.short_name, fn)
+    elif snap is not None:
+        R.hold("c", "%s: the pass compares rules_fired with the value it had at the top of the pass (snapshot taken once per pass before the rule loop)" % fn.short_name, fn=fn)
+    elif any(k.startswith("other@") for k in kinds):
+        R.undecide("c", "flag:%s" % fn.name, "%s: the cycle loop has a normal exit this rule does not read (neither a fired flag nor a fired-count snapshot)" % fn.short_name, fn)
     else:
         R.violate("c", "flag:%s" % fn.name, "%s: no boolean flag controls the early exit of the cycle loop" % fn.short_name, fn)
+
+
+def _snapshot_exit(L, fired):
+    """Flag-free form of the early break: `let before = rules_fired;` at the top of the pass and, after the rule loop,
+    `if rules_fired == before { break }`. Returns {'edge': exit edge taken when nothing fired} or None."""
+    fn = L.fn
+    if not isinstance(fired, int):
+        return None
+    for (b, t, lab) in fn.loop_exits(L.outer):
+        if fn.term(b)[2] != "switch" or not A.bool_edges(fn, b) or b in L.inner["body"]:
+            continue
+        op = fn.term(b)[3]
+        if op[0] not in "cm" or op[1][1]:
+            continue
+        ds = fn.defs().get(op[1][0], [])
+        if len(ds) != 1 or ds[0][2] != "assign" or ds[0][3][4][0] != "bin" or ds[0][3][4][1] not in ("Eq", "Ne"):
+            continue
+        rv = ds[0][3][4]
+        sides = []
+        for o in (rv[2], rv[3]):
+            if o[0] not in "cm" or o[1][1]:
+                sides = None
+                break
+            l = o[1][0]
+            for _ in range(4):
+                d2 = fn.defs().get(l, [])
+                if l != fired and len(d2) == 1 and d2[0][2] == "assign" and d2[0][3][4][0] == "use" and d2[0][3][4][1][0] in "cm" and not d2[0][3][4][1][1][1] and not fn.local_name(l):
+                    l = d2[0][3][4][1][1][0]
+                else:
+                    break
+            sides.append(l)
+        if not sides or fired not in sides or sides[0] == sides[1]:
+            continue
+        other = sides[1] if sides[0] == fired else sides[0]
+        # the snapshot: one definition, a copy of the counter, once per pass before the rule loop
+        d3 = fn.defs().get(other, [])
+        if len(d3) != 1 or d3[0][2] != "assign" or d3[0][0] not in L.outer["body"] or d3[0][0] in L.inner["body"] or not fn.dominates(d3[0][0], L.inner["header"]):
+            continue
+        src = d3[0][3][4]
+        l = src[1][1][0] if src[0] == "use" and src[1][0] in "cm" and not src[1][1][1] else None
+        for _ in range(4):
+            d2 = fn.defs().get(l, []) if l is not None else []
+            if l != fired and len(d2) == 1 and d2[0][2] == "assign" and d2[0][3][4][0] == "use" and d2[0][3][4][1][0] in "cm" and not d2[0][3][4][1][1][1] and not fn.local_name(l):
+                l = d2[0][3][4][1][1][0]
+            else:
+                break
+        if l != fired:
+            continue
+        fe, te = A.bool_edges(fn, b)
+        equal_edge = (b, te, ("sw", "otherwise")) if rv[1] == "Eq" else (b, fe, ("sw", 0))
+        if (b, t, lab) == equal_edge:
+            return {"edge": (b, t, lab), "snapshot": other}
+        return {"edge": equal_edge, "snapshot": other}
+    return None
 
 
 def _break_flag(L):
